@@ -87,13 +87,28 @@ def reduceAll (t : T FV) (f : FV → FV → FV) : FV := foldSlice f t.data.toLis
 
 /-! ### optimizers -/
 
+/-- smallest positive (subnormal) value of a format: `finfo.tiny * finfo.eps` -/
+def Fmt.minPos (F : Fmt) : Rat := pow2 (F.emin - (F.p : Int) + 1)
+
+/-- `torch.clamp(v, min=m)`: NaN stays NaN -/
+def FV.clampMin (m : Rat) : FV → FV
+  | .fin q => .fin (if q < m then m else q)
+  | .ninf => .fin m
+  | v => v
+
+/-- scale of one slice with absolute maximum `r`: `clamp(r / qmax, min=smallest positive value)`
+(the clamp is the repair of the null-scale defect; `clampNull = false` is the original code) -/
+def absmaxOf (F : Fmt) (qmax : Rat) (clampNull : Bool) (r : FV) : FV :=
+  let s := F.div r (.fin qmax)
+  if clampNull then s.clampMin F.minPos else s
+
 /-- `AbsmaxOptimizer.optimize` (weights): `amax(|x|) / (2^(bits-1)-1)`;
 `absmax_scale` (activations / calibration) divides by `dtype_info(qtype.dtype).max` instead. -/
-def absmaxScale (F : Fmt) (qmax : Rat) (t : T FV) (axis : Axis) : T FV :=
+def absmaxScale (F : Fmt) (qmax : Rat) (t : T FV) (axis : Axis) (clampNull : Bool := true) : T FV :=
   let a := t.map FV.abs
   match axis with
-  | none => ⟨[], #[F.div (reduceAll a FV.max) (.fin qmax)]⟩
-  | some af => (reduceSlices a af FV.max).map fun r => F.div r (.fin qmax)
+  | none => ⟨[], #[absmaxOf F qmax clampNull (reduceAll a FV.max)]⟩
+  | some af => (reduceSlices a af FV.max).map fun r => absmaxOf F qmax clampNull r
 
 /-- float → int8 conversion with two's complement wrap-around (what this x86-64 build does for
 out-of-range values below 2^31; UB in general — no theorem relies on the wrapped value) -/
